@@ -34,8 +34,8 @@ func (s *verifIn) Read(p []byte) (int, error) {
 
 // verifNAL: one NAL unit of 2..max_nal bytes: header (F=0, NRI and type symbolic,
 // type in 1..23) and non-zero body bytes (so no start code can be emulated).
-func verifNAL() []byte {
-	n := 2 + verif.Choice("nal_len", verif.Param("max_nal", 3)-1)
+func verifNAL(min, max int) []byte {
+	n := min + verif.Choice("nal_len", max-min+1)
 	u := verif.Bytes("nal", n)
 	verif.Assume(u[0]&0x80 == 0)
 	verif.Assume(u[0]&0x1F >= 1)
@@ -56,16 +56,18 @@ func VerifC35H264() {
 	var want [][]byte
 	started := false
 	npk := verif.Param("packets", 2)
+	maxNAL := verif.Param("max_nal", 3)
 	for i := 0; i < npk; i++ {
 		var units [][]byte
 		var payloads [][]byte
-		switch verif.Choice("shape", 3) {
+		shape := verif.Choice("shape", 3)
+		switch shape {
 		case 0: // single NAL unit packet
-			u := verifNAL()
+			u := verifNAL(2, maxNAL)
 			units = [][]byte{u}
 			payloads = [][]byte{u}
 		case 1: // STAP-A with two units
-			a, b := verifNAL(), verifNAL()
+			a, b := verifNAL(2, maxNAL), verifNAL(2, maxNAL)
 			p := []byte{24 | (a[0] & 0x60)}
 			p = append(p, 0, byte(len(a)))
 			p = append(p, a...)
@@ -74,11 +76,11 @@ func VerifC35H264() {
 			units = [][]byte{a, b}
 			payloads = [][]byte{p}
 		default: // FU-A: one unit of 3 bytes split into a start and an end fragment
-			u := verifNAL()
-			verif.Assume(len(u) >= 3)
+			u := verifNAL(3, verif.Param("max_fua_nal", 4))
 			ind := 28 | (u[0] & 0x60)
-			start := []byte{ind, 0x80 | (u[0] & 0x1F), u[1]}
-			end := append([]byte{ind, 0x40 | (u[0] & 0x1F)}, u[2:]...)
+			// the start fragment carries all but the last body byte, the end fragment the last one
+			start := append([]byte{ind, 0x80 | (u[0] & 0x1F)}, u[1:len(u)-1]...)
+			end := []byte{ind, 0x40 | (u[0] & 0x1F), u[len(u)-1]}
 			units = [][]byte{u}
 			payloads = [][]byte{start, end}
 		}
@@ -90,6 +92,7 @@ func VerifC35H264() {
 		if !started && (firstType == 7 || firstType == 5) {
 			started = true
 			verif.Key("units-from-first-keyframe", "first_type", int(firstType))
+			verif.Key("units-from-first-keyframe", "rtp_shape", shape)
 			verif.KeyBool("units-from-first-keyframe", "first_packet_shorter_than_4", len(payloads[0]) < 4)
 		}
 		if started {
